@@ -162,11 +162,16 @@ def _pairmargin(scn):
 # ------------------------------------------------------------------------------------------ execution
 
 
-def _canon(d, nworld):
-  """Contacts as a sorted list of tuples (world, g1, g2, dist, pos..., frame..., includemargin, dim) in raw float32."""
+def _canon(d, nworld, geom_type):
+  """(rows, nacon, swapped): contacts as a sorted list of tuples in raw float32.
+
+  Row = (world, g_lo, g_hi, dist, pos[3], normal[3] oriented from g_lo to g_hi, includemargin, dim, friction[5]).
+  `swapped` lists contacts reported with geom[0] > geom[1] for two geoms of the same type (a different record of the same
+  physical contact: ids exchanged, normal negated).
+  """
   n = min(int(d.nacon.numpy()[0]), d.naconmax)
   if n == 0:
-    return [], 0
+    return [], 0, []
   c = d.contact
   wid = c.worldid.numpy()[:n]
   geom = c.geom.numpy()[:n]
@@ -176,17 +181,22 @@ def _canon(d, nworld):
   inc = c.includemargin.numpy()[:n]
   dim = c.dim.numpy()[:n]
   fr = c.friction.numpy()[:n]
-  rows = []
+  rows, swapped = [], []
   for i in range(n):
+    g1, g2 = int(geom[i][0]), int(geom[i][1])
+    nrm = frame[i][:3]
+    if geom_type[g1] == geom_type[g2] and g1 > g2:
+      swapped.append((int(wid[i]), g2, g1))
+      g1, g2, nrm = g2, g1, -nrm
     rows.append(
-      (int(wid[i]), int(geom[i][0]), int(geom[i][1]), float(dist[i]))
+      (int(wid[i]), g1, g2, float(dist[i]))
       + tuple(float(x) for x in pos[i])
-      + tuple(float(x) for x in frame[i])
+      + tuple(float(x) + 0.0 for x in nrm)
       + (float(inc[i]), int(dim[i]))
       + tuple(float(x) for x in fr[i])
     )
   rows.sort()
-  return rows, int(d.nacon.numpy()[0])
+  return rows, int(d.nacon.numpy()[0]), swapped
 
 
 def execute(scn):
@@ -214,6 +224,7 @@ def execute(scn):
   util.set_field(d.qpos, np.array(worlds, dtype=np.float32))
   mjw.kinematics(m, d)
   c = util.Cmp()
+  gtype = [int(t) for t in mjm.geom_type]
   names = {}
   for g1, g2 in itertools.combinations(range(mjm.ngeom), 2):
     names[(g1, g2)] = names[(g2, g1)] = cc.pair_name(mjm.geom_type[g1], mjm.geom_type[g2])
@@ -222,41 +233,70 @@ def execute(scn):
     m.opt.broadphase = bp
     m.opt.broadphase_filter = flt
     mjw.collision(m, d)
-    return _canon(d, nworld)
+    return _canon(d, nworld, gtype)
 
-  ref, nref = run(BroadphaseType.NXN, BroadphaseFilter(0))
+  ref, nref, ref_sw = run(BroadphaseType.NXN, BroadphaseFilter(0))
   if nref > d.naconmax:
     raise RuntimeError("harness: naconmax too small for the reference run")
   ref_count = collections.Counter(r[:3] for r in ref)
   npairs_candidate = int(m.nxn_geom_pair_filtered.shape[0]) * nworld
   nconfig = 0
+  found = collections.OrderedDict()  # vkey -> [first message, list of filter masks]
+
+  def note(vkey, msg, f):
+    found.setdefault(vkey, [msg, []])[1].append(f)
+
   for bp in BroadphaseType:
     for f in range(16):
       flt = BroadphaseFilter(f)
       if bp == BroadphaseType.NXN and f == 0:
         continue
-      got, ngot = run(bp, flt)
+      got, ngot, got_sw = run(bp, flt)
       nconfig += 1
       c.nchecked += 1
+      if got_sw != ref_sw:
+        k = (got_sw or ref_sw)[0]
+        pn = names[(k[1], k[2])]
+        note(
+          f"{bp.name}:geom_order_swapped:{pn}",
+          f"world {k[0]}: contact of geoms ({k[1]}, {k[2]}) ({pn}) is reported as geom=({k[2]}, {k[1]}) with the normal negated "
+          f"(all-pairs broad phase: {'same' if k in ref_sw else 'geom[0] < geom[1]'})",
+          f,
+        )
       if got == ref:
         continue
-      cfg = f"{bp.name}:{'|'.join(x.name for x in BroadphaseFilter if x & flt) or 'NONE'}"
       got_count = collections.Counter(r[:3] for r in got)
       reported = False
       for key in sorted(set(ref_count) | set(got_count)):
-        a, b_ = ref_count.get(key, 0), got_count.get(key, 0)
-        if a != b_:
-          side = "missing" if b_ < a else "extra"
+        a_, b_ = ref_count.get(key, 0), got_count.get(key, 0)
+        if a_ != b_:
+          side = "missing" if b_ < a_ else "extra"
           pn = names[(key[1], key[2])]
-          if fam == "pairmargin" and side == "missing":
-            vkey = "pair_margin_gt_geom_margin:missing_contact"
-          else:
-            vkey = f"{cfg}:{side}:{pn}"
-          c.fail(vkey, f"{cfg}: world {key[0]} pair {key[1:]} ({pn}): {a} contact(s) without filtering, {b_} with this configuration")
+          vkey = "pair_margin_gt_geom_margin:missing_contact" if (fam == "pairmargin" and side == "missing") else f"{bp.name}:{side}:{pn}"
+          note(vkey, f"{bp.name}: world {key[0]} pair {key[1:]} ({pn}): {a_} contact(s) with (NXN, no filter), {b_} with this configuration", f)
           reported = True
           break
       if not reported:
-        c.fail(f"{cfg}:values_differ", f"{cfg}: same pairs but contact values are not bit-identical to the unfiltered run")
+        # same pairs: values must be bit-identical, except for contacts whose geom order was exchanged (the narrow phase
+        # then runs with its two arguments swapped; already reported above) which are compared under class f32
+        swset = set(got_sw) ^ set(ref_sw)
+        bad = None
+        for ra, rb in zip(ref, got):
+          if ra == rb:
+            continue
+          va, vb = np.array(ra[3:], np.float64), np.array(rb[3:], np.float64)
+          if ra[:3] == rb[:3] and ra[:3] in swset and np.max(np.abs(va - vb)) <= 2e-5 * (1 + np.max(np.abs(va))):
+            continue
+          bad = (ra, rb)
+          break
+        if bad:
+          note(
+            f"{bp.name}:values_differ:{names[(bad[0][1], bad[0][2])]}",
+            f"{bp.name}: same pairs but contact values differ from the (NXN, no filter) run: {bad[0][:7]} vs {bad[1][:7]}",
+            f,
+          )
+  for vkey, (msg, fl) in found.items():
+    c.fail(vkey, f"{msg}; filter masks {fl}")
   nontrivial = len(ref) > 0 and npairs_candidate > len(ref_count)
   return c.result(
     nontrivial=nontrivial,
